@@ -173,8 +173,73 @@ def eval_const(node, glob):
     return eval(code, dict(glob), {})
 
 
+class NotInlinable(Exception):
+    pass
+
+
+class _Subst(ast.NodeTransformer):
+    def __init__(self, mapping):
+        self.m = mapping
+
+    def visit_Name(self, n):
+        if isinstance(n.ctx, ast.Load) and n.id in self.m:
+            return copy.deepcopy(self.m[n.id])
+        return n
+
+
+def _subst(node, mapping):
+    return _Subst(mapping).visit(copy.deepcopy(node))
+
+
+def _terminates(stmts):
+    if not stmts:
+        return False
+    last = stmts[-1]
+    if isinstance(last, ast.Return):
+        return True
+    if isinstance(last, ast.If):
+        return _terminates(last.body) and _terminates(last.orelse)
+    return False
+
+
+def _stmts_to_expr(stmts):
+    """body of an expression function (local lets, if/else, early returns) -> one expression"""
+    if not stmts:
+        return ast.Constant(value=None)
+    s0, rest = stmts[0], stmts[1:]
+    if isinstance(s0, ast.Return):
+        return s0.value if s0.value is not None else ast.Constant(value=None)
+    if isinstance(s0, ast.If):
+        tb = s0.body if _terminates(s0.body) else s0.body + rest
+        eb = s0.orelse if (s0.orelse and _terminates(s0.orelse)) else s0.orelse + rest
+        return ast.IfExp(test=s0.test, body=_stmts_to_expr(tb), orelse=_stmts_to_expr(eb))
+    if isinstance(s0, ast.Assign) and len(s0.targets) == 1 and isinstance(s0.targets[0], ast.Name):
+        name = s0.targets[0].id
+        if any(isinstance(n, ast.Name) and n.id == name and isinstance(n.ctx, ast.Store) for st in rest for n in ast.walk(st)):
+            raise NotInlinable("local rebound")
+        return _stmts_to_expr([_subst(st, {name: s0.value}) for st in rest])
+    raise NotInlinable("statement " + type(s0).__name__)
+
+
+def _bind_call(call, names):
+    """positional + keyword arguments of a call against parameter names -> {name: expr} or None"""
+    if any(isinstance(x, ast.Starred) for x in call.args) or any(k.arg is None for k in call.keywords) or len(call.args) > len(names):
+        return None
+    m = dict(zip(names, call.args))
+    for k in call.keywords:
+        if k.arg not in names or k.arg in m:
+            return None
+        m[k.arg] = k.value
+    return m
+
+
 def analyse_registry_parse(cls):
-    """-> ('CDomain', path, group, regcid) | ('COneofSwitch', path, group, cases) | opaque"""
+    """-> CDomain path group reg | COneofSwitch path group cases | COpaque.
+    The body is first reduced to ONE expression (`_stmts_to_expr`: single-assignment locals substituted, if/else and
+    early returns -> conditional expression, falling off the end -> None), so temporaries inlined or introduced,
+    renamed locals and early-return forms give the same result; then matched:
+      domain : R.bound(<message>.<path>.WhichOneof(G), <version>).parse(<version>, <message>)
+      switch : A.parse(<version>, <message>) if <message>.<path>.WhichOneof(G) == 'a' else (... else None)"""
     fn = inspect.getattr_static(cls, "parse", None)
     for k in cls.__mro__:
         if "parse" in k.__dict__:
@@ -188,93 +253,106 @@ def analyse_registry_parse(cls):
     tie(f, "parse of " + cid_of(cls))
     node, body = fn_ast(f)
     argn = [a.arg for a in node.args.args]
-    if len(argn) != 2:
+    if len(argn) != 2 or node.args.vararg or node.args.kwarg or node.args.kwonlyargs:
         return {"kind": "COpaque", "why": "parse arity"}
     vname, mname = argn
     glob = f.__globals__
-    # shape 1: t = message.<p>.WhichOneof(g); c = R.bound(t, version); return c.parse(version, message)
     try:
-        if len(body) == 3 and isinstance(body[0], ast.Assign) and isinstance(body[1], ast.Assign) and isinstance(body[2], ast.Return):
-            t = body[0].targets[0].id
-            call = body[0].value
-            assert isinstance(call, ast.Call) and call.func.attr == "WhichOneof" and len(call.args) == 1
-            chain = attr_chain(call.func.value)
-            assert chain and chain[0] == mname
-            group = call.args[0].value
-            c = body[1].targets[0].id
-            b = body[1].value
-            assert isinstance(b, ast.Call) and b.func.attr == "bound" and [a.id for a in b.args] == [t, vname] and not b.keywords
-            regcls = eval_const(b.func.value, glob)
-            r = body[2].value
-            assert isinstance(r, ast.Call) and r.func.attr == "parse" and r.func.value.id == c
-            assert [a.id for a in r.args] == [vname, mname] and not r.keywords
-            return {"kind": "CDomain", "path": chain[1:], "group": group, "reg": cid_of(regcls)}
-    except Exception:  # noqa
-        pass
-    # shape 2: t = message.<p>.WhichOneof(g); if t == 'a': return A.parse(version, message) elif ... else: return None
+        e = _stmts_to_expr(copy.deepcopy(body))
+    except NotInlinable as ex:
+        return {"kind": "COpaque", "why": "registry parse outside the grammar (%s)" % ex}
+
+    def is_name(x, n):
+        return isinstance(x, ast.Name) and x.id == n
+
+    def which_oneof(x):
+        """<message>.<path>.WhichOneof('g') -> (path, g)"""
+        if isinstance(x, ast.Call) and isinstance(x.func, ast.Attribute) and x.func.attr == "WhichOneof" and not x.keywords \
+                and len(x.args) == 1 and isinstance(x.args[0], ast.Constant) and isinstance(x.args[0].value, str):
+            chain = attr_chain(x.func.value)
+            if chain and chain[0] == mname:
+                return chain[1:], x.args[0].value
+        return None
+
+    def parse_call(x):
+        """T.parse(<version>, <message>) (positional: the callee is only known at run time) -> T expression"""
+        if isinstance(x, ast.Call) and isinstance(x.func, ast.Attribute) and x.func.attr == "parse" and not x.keywords \
+                and len(x.args) == 2 and is_name(x.args[0], vname) and is_name(x.args[1], mname):
+            return x.func.value
+        return None
+
+    # domain dispatch
+    t = parse_call(e)
+    if t is not None and isinstance(t, ast.Call) and isinstance(t.func, ast.Attribute) and t.func.attr == "bound":
+        m = _bind_call(t, ["name", "version"])
+        wo = which_oneof(m["name"]) if m and "name" in m and "version" in m else None
+        if wo and is_name(m["version"], vname):
+            try:
+                regcls = eval_const(t.func.value, glob)
+            except Exception:  # noqa
+                regcls = None
+            if inspect.isclass(regcls) and issubclass(regcls, Registry):
+                return {"kind": "CDomain", "path": wo[0], "group": wo[1], "reg": cid_of(regcls)}
+        return {"kind": "COpaque", "why": "registry parse outside the grammar"}
+    # oneof switch
+    cases, wo0, cur = [], None, e
     try:
-        assert len(body) == 2 and isinstance(body[0], ast.Assign) and isinstance(body[1], ast.If)
-        t = body[0].targets[0].id
-        call = body[0].value
-        assert isinstance(call, ast.Call) and call.func.attr == "WhichOneof" and len(call.args) == 1
-        chain = attr_chain(call.func.value)
-        assert chain and chain[0] == mname
-        group = call.args[0].value
-        cases = []
-        node_if = body[1]
         while True:
-            test = node_if.test
-            assert isinstance(test, ast.Compare) and test.left.id == t and isinstance(test.ops[0], ast.Eq)
-            member = test.comparators[0].value
-            assert len(node_if.body) == 1 and isinstance(node_if.body[0], ast.Return)
-            r = node_if.body[0].value
-            assert isinstance(r, ast.Call) and r.func.attr == "parse" and [a.id for a in r.args] == [vname, mname]
-            target = eval_const(r.func.value, glob)
-            cases.append([member, cid_of(target)])
+            if isinstance(cur, ast.Constant) and cur.value is None:
+                break
+            assert isinstance(cur, ast.IfExp) and isinstance(cur.test, ast.Compare) and len(cur.test.ops) == 1 \
+                and isinstance(cur.test.ops[0], ast.Eq)
+            l, r = cur.test.left, cur.test.comparators[0]
+            if isinstance(l, ast.Constant):
+                l, r = r, l
+            wo = which_oneof(l)
+            assert wo and isinstance(r, ast.Constant) and isinstance(r.value, str) and wo0 in (None, wo)
+            wo0 = wo
+            tgt = parse_call(cur.body)
+            assert tgt is not None
+            target = eval_const(tgt, glob)
+            assert inspect.isclass(target)
+            cases.append([r.value, cid_of(target)])
             note_class(target)
-            if len(node_if.orelse) == 1 and isinstance(node_if.orelse[0], ast.If):
-                node_if = node_if.orelse[0]
-                continue
-            if node_if.orelse:
-                assert len(node_if.orelse) == 1 and isinstance(node_if.orelse[0], ast.Return)
-                rv = node_if.orelse[0].value
-                assert rv is None or (isinstance(rv, ast.Constant) and rv.value is None)
-            break
-        return {"kind": "COneofSwitch", "path": chain[1:], "group": group, "cases": cases}
+            cur = cur.orelse
+        assert cases and len({c[0] for c in cases}) == len(cases)
+        return {"kind": "COneofSwitch", "path": wo0[0], "group": wo0[1], "cases": cases}
     except Exception:  # noqa
         pass
     return {"kind": "COpaque", "why": "registry parse outside the grammar"}
 
 
 def analyse_value_switch(cls, f):
-    """CommandResult.parse shape: if msg.<p> == C: return R.bound('n', version)(message=msg) elif ..."""
+    """CommandResult.parse: R.bound('n', version)(message=msg) if msg.<p> == C else (... else None), after reduction of
+    the body to one expression (if/elif chain, early returns, temporaries)"""
     node, body = fn_ast(f)
     argn = [a.arg for a in node.args.args]
+    if len(argn) != 2:
+        return {"kind": "COpaque", "why": "parse arity"}
     vname, mname = argn
     glob = f.__globals__
     try:
-        assert len(body) == 1 and isinstance(body[0], ast.If)
-        node_if, cases, path = body[0], [], None
-        while True:
-            test = node_if.test
-            assert isinstance(test, ast.Compare) and isinstance(test.ops[0], ast.Eq)
-            chain = attr_chain(test.left)
-            assert chain and chain[0] == mname
-            assert path in (None, chain[1:])
+        cur = _stmts_to_expr(copy.deepcopy(body))
+        cases, path = [], None
+        while not (isinstance(cur, ast.Constant) and cur.value is None):
+            assert isinstance(cur, ast.IfExp) and isinstance(cur.test, ast.Compare) and len(cur.test.ops) == 1 \
+                and isinstance(cur.test.ops[0], ast.Eq)
+            chain = attr_chain(cur.test.left)
+            assert chain and chain[0] == mname and path in (None, chain[1:])
             path = chain[1:]
-            const = int(eval_const(test.comparators[0], glob))
-            assert len(node_if.body) == 1 and isinstance(node_if.body[0], ast.Return)
-            r = node_if.body[0].value
-            assert isinstance(r, ast.Call) and not r.args and [k.arg for k in r.keywords] == ["message"] and r.keywords[0].value.id == mname
-            b = r.func
-            assert isinstance(b, ast.Call) and b.func.attr == "bound" and isinstance(b.args[0], ast.Constant) and b.args[1].id == vname
-            regcls = eval_const(b.func.value, glob)
-            cases.append([const, cid_of(regcls), b.args[0].value])
-            if len(node_if.orelse) == 1 and isinstance(node_if.orelse[0], ast.If):
-                node_if = node_if.orelse[0]
-                continue
-            assert not node_if.orelse
-            break
+            const = int(eval_const(cur.test.comparators[0], glob))
+            r = cur.body
+            assert isinstance(r, ast.Call) and isinstance(r.func, ast.Call) and isinstance(r.func.func, ast.Attribute) and r.func.func.attr == "bound"
+            m = _bind_call(r, ["message"])
+            assert m and isinstance(m.get("message"), ast.Name) and m["message"].id == mname
+            b = _bind_call(r.func, ["name", "version"])
+            assert b and isinstance(b.get("name"), ast.Constant) and isinstance(b["name"].value, str) \
+                and isinstance(b.get("version"), ast.Name) and b["version"].id == vname
+            regcls = eval_const(r.func.func.value, glob)
+            assert inspect.isclass(regcls)
+            cases.append([const, cid_of(regcls), b["name"].value])
+            cur = cur.orelse
+        assert cases and len({c[0] for c in cases}) == len(cases)
         fd = resolve(path)
         assert fd is not None and "scalar" in fd["ty"] and not fd["rep"]
         return {"kind": "CValueSwitch", "path": path, "cases": cases}
@@ -475,54 +553,6 @@ def jval(v):
 
 def names_in(node):
     return {n.id for n in ast.walk(node) if isinstance(n, ast.Name)}
-
-
-class NotInlinable(Exception):
-    pass
-
-
-class _Subst(ast.NodeTransformer):
-    def __init__(self, mapping):
-        self.m = mapping
-
-    def visit_Name(self, n):
-        if isinstance(n.ctx, ast.Load) and n.id in self.m:
-            return copy.deepcopy(self.m[n.id])
-        return n
-
-
-def _subst(node, mapping):
-    return _Subst(mapping).visit(copy.deepcopy(node))
-
-
-def _terminates(stmts):
-    if not stmts:
-        return False
-    last = stmts[-1]
-    if isinstance(last, ast.Return):
-        return True
-    if isinstance(last, ast.If):
-        return _terminates(last.body) and _terminates(last.orelse)
-    return False
-
-
-def _stmts_to_expr(stmts):
-    """body of an expression function (local lets, if/else, early returns) -> one expression"""
-    if not stmts:
-        return ast.Constant(value=None)
-    s0, rest = stmts[0], stmts[1:]
-    if isinstance(s0, ast.Return):
-        return s0.value if s0.value is not None else ast.Constant(value=None)
-    if isinstance(s0, ast.If):
-        tb = s0.body if _terminates(s0.body) else s0.body + rest
-        eb = s0.orelse if (s0.orelse and _terminates(s0.orelse)) else s0.orelse + rest
-        return ast.IfExp(test=s0.test, body=_stmts_to_expr(tb), orelse=_stmts_to_expr(eb))
-    if isinstance(s0, ast.Assign) and len(s0.targets) == 1 and isinstance(s0.targets[0], ast.Name):
-        name = s0.targets[0].id
-        if any(isinstance(n, ast.Name) and n.id == name and isinstance(n.ctx, ast.Store) for st in rest for n in ast.walk(st)):
-            raise NotInlinable("local rebound")
-        return _stmts_to_expr([_subst(st, {name: s0.value}) for st in rest])
-    raise NotInlinable("statement " + type(s0).__name__)
 
 
 def _resolve_callee(call, glob, regcls):
